@@ -1351,4 +1351,122 @@ pub proof fn lemma_free_mono(fc: Map<usize, Decimal>, txs: Seq<GbpTransaction>, 
     isum_mono(lo, n, f); isum_mono(n, txs.len() as int, f); isum_mono(0, lo, f);
 }
 
+
+// ---------- C01.sameday_first: each day's disposals are identified first with that day's own acquisitions ----------
+pub open spec fn f_sd_qty_on(x: int, t: Seq<char>) -> spec_fn(MatchResult) -> real {
+    |m: MatchResult| if m.match_detail.rule == MatchRule::SameDay && m.disposal_date.d() == x && m.disposal_ticker@ == t { m.match_detail.quantity.v() } else { 0real }
+}
+/// shares of t disposed of on day x that were identified with acquisitions of the same day
+pub open spec fn sdq_on(ms: Seq<MatchResult>, x: int, t: Seq<char>) -> real { rsum(ms, f_sd_qty_on(x, t)) }
+pub open spec fn day_done(txs: Seq<GbpTransaction>, i: int, x: int) -> bool { i >= txs.len() || x < txs[i].date.d() }
+/// the Same Day rule in full: every processed day's same-day legs add up to min(sold that day, bought that day); nothing for days to come
+pub open spec fn inv_sameday(ms: Seq<MatchResult>, txs: Seq<GbpTransaction>, i: int) -> bool {
+    forall|x: int, t: Seq<char>| #![trigger sdq_on(ms, x, t)] sdq_on(ms, x, t) == (if day_done(txs, i, x) { rmin(day_sells(txs, x, t), day_buys(txs, x, t)) } else { 0real })
+}
+/// one SELL handled: only its Same Day leg (if any) counts, for its own day and security
+pub proof fn lemma_sdq_sell(m0: Seq<MatchResult>, sd: Seq<MatchResult>, bb: Seq<MatchResult>, xs: Seq<MatchResult>, tx: GbpTransaction, x: int, t: Seq<char>)
+    requires sd.len() <= 1, legs_of(sd, tx), forall|j: int| 0 <= j < sd.len() ==> (#[trigger] sd[j]).match_detail.rule == MatchRule::SameDay,
+        forall|j: int| 0 <= j < bb.len() ==> (#[trigger] bb[j]).match_detail.rule == MatchRule::BedAndBreakfast,
+        forall|j: int| 0 <= j < xs.len() ==> (#[trigger] xs[j]).match_detail.rule == MatchRule::Section104,
+    ensures sdq_on(m0 + sd + bb + xs, x, t) == sdq_on(m0, x, t) + (if x == tx.date.d() && t == tx.ticker@ { rsum(sd, f_leg_qty()) } else { 0real })
+{
+    let f = f_sd_qty_on(x, t);
+    rsum_concat(m0 + sd + bb, xs, f); rsum_concat(m0 + sd, bb, f); rsum_concat(m0, sd, f);
+    assert forall|j: int| 0 <= j < bb.len() implies f(#[trigger] bb[j]) == 0real by {}
+    rsum_zero(bb, f);
+    assert forall|j: int| 0 <= j < xs.len() implies f(#[trigger] xs[j]) == 0real by {}
+    rsum_zero(xs, f);
+    if x == tx.date.d() && t == tx.ticker@ {
+        assert forall|j: int| 0 <= j < sd.len() implies f(#[trigger] sd[j]) == f_leg_qty()(sd[j]) by {}
+        rsum_ext(sd, sd, f, f_leg_qty());
+    } else {
+        assert forall|j: int| 0 <= j < sd.len() implies f(#[trigger] sd[j]) == 0real by {}
+        rsum_zero(sd, f); rsum_zero(sd, f);
+        if sd.len() == 0 { rsum_empty::<MatchResult>(f_leg_qty()); assert(sd =~= Seq::<MatchResult>::empty()); }
+    }
+}
+/// the day's lines are lines i..e: the day's sales are the sales among them
+pub proof fn lemma_day_sells_range(txs: Seq<GbpTransaction>, i: int, e: int, cur: int, t: Seq<char>)
+    requires day_range(txs, i, e, cur), txs.len() <= usize::MAX
+    ensures day_sells(txs, cur, t) == sold_in(txs, i, e, t), day_buys(txs, cur, t) == bought_in(txs, i, e, t)
+{
+    let n = txs.len() as int;
+    let gs = |k: int| if 0 <= k < txs.len() { f_sell_on(cur, t)(txs[k]) } else { 0real };
+    lemma_isum_rsum(txs, n, f_sell_on(cur, t), gs); assert(txs.take(n) =~= txs);
+    isum_range_only(n, i, e, gs, f_sell_t(txs, t));
+    let gb = |k: int| if 0 <= k < txs.len() { f_buy_on(cur, t)(txs[k]) } else { 0real };
+    lemma_isum_rsum(txs, n, f_buy_on(cur, t), gb);
+    isum_range_only(n, i, e, gb, f_buy_t(txs, t));
+}
+/// ... and the day's unclaimed shares are those of the purchases among them
+pub proof fn lemma_free_range(fc: Map<usize, Decimal>, txs: Seq<GbpTransaction>, i: int, e: int, cur: int, t: Seq<char>)
+    requires day_range(txs, i, e, cur), txs.len() <= usize::MAX
+    ensures isum(txs.len() as int, f_free_on(fc, txs, cur, t)) == free_upto(fc, txs, i, e, cur, t)
+{
+    isum_range_only(txs.len() as int, i, e, f_free_on(fc, txs, cur, t), f_free_on(fc, txs, cur, t));
+}
+/// a date on which the list has no line: nothing sold, nothing bought
+pub proof fn lemma_no_lines_on(txs: Seq<GbpTransaction>, x: int, t: Seq<char>)
+    requires forall|k: int| 0 <= k < txs.len() ==> (#[trigger] txs[k]).date.d() != x
+    ensures day_sells(txs, x, t) == 0real, day_buys(txs, x, t) == 0real
+{
+    assert forall|k: int| 0 <= k < txs.len() implies f_sell_on(x, t)(#[trigger] txs[k]) == 0real by {}
+    rsum_zero(txs, f_sell_on(x, t));
+    assert forall|k: int| 0 <= k < txs.len() implies f_buy_on(x, t)(#[trigger] txs[k]) == 0real by {}
+    rsum_zero(txs, f_buy_on(x, t));
+}
+pub proof fn lemma_day_buys_nonneg(txs: Seq<GbpTransaction>, x: int, t: Seq<char>)
+    requires txs_valid(txs)
+    ensures day_buys(txs, x, t) >= 0real
+{
+    assert forall|i: int| 0 <= i < txs.len() implies f_buy_on(x, t)(#[trigger] txs[i]) >= 0real by { assert(tx_valid(txs[i])); }
+    rsum_nonneg(txs, f_buy_on(x, t));
+}
+/// dropping a claim (the purchase has been reached) only lowers the claims of its day
+pub proof fn lemma_claims_le(fc0: Map<usize, Decimal>, fc1: Map<usize, Decimal>, txs: Seq<GbpTransaction>, x: int, t: Seq<char>)
+    requires txs.len() <= usize::MAX, forall|k: usize| #![trigger fc_get(fc1, k)] fc_get(fc1, k) <= fc_get(fc0, k)
+    ensures claims_on(fc1, txs, x, t) <= claims_on(fc0, txs, x, t)
+{
+    assert forall|k: int| 0 <= k < txs.len() implies #[trigger] f_claim_on(fc1, txs, x, t)(k) <= f_claim_on(fc0, txs, x, t)(k) by { assert(fc_get(fc1, k as usize) <= fc_get(fc0, k as usize)); }
+    isum_le(txs.len() as int, f_claim_on(fc1, txs, x, t), f_claim_on(fc0, txs, x, t));
+}
+
+
+/// adding the lot of BUY line k makes its unreserved part available for the day's matching
+pub proof fn lemma_add_lot_lav(led0: Map<Seq<char>, matcher::AcquisitionLedger>, led1: Map<Seq<char>, matcher::AcquisitionLedger>, txs: Seq<GbpTransaction>, offs: Seq<Decimal>, k: int, t: Seq<char>)
+    requires
+        0 <= k < txs.len(), txs[k].operation is Buy,
+        ({ let tk = txs[k].ticker@; let l0 = if led0.contains_key(tk) { led0[tk]@ } else { Seq::<AcquisitionLot>::empty() };
+           led1.dom() == led0.dom().insert(tk) && (forall|q: Seq<char>| q != tk && led0.contains_key(q) ==> #[trigger] led1[q] == led0[q])
+           && led1[tk]@.len() == l0.len() + 1 && led1[tk]@.drop_last() == l0
+           && lot_is_tx(led1[tk]@.last(), tk, txs, offs) && led1[tk]@.last().transaction_idx == k
+           && led1[tk]@.last().consumed.v() == 0real && led1[tk]@.last().in_pool.v() == 0real }),
+    ensures lav(led1, t, txs[k].date.d()) == lav(led0, t, txs[k].date.d()) + (if txs[k].ticker@ == t { buy_qty(txs[k]) - led1[txs[k].ticker@]@.last().reserved.v() } else { 0real })
+{
+    let tk = txs[k].ticker@; let d = txs[k].date.d();
+    let l0 = if led0.contains_key(tk) { led0[tk]@ } else { Seq::<AcquisitionLot>::empty() };
+    let l1 = led1[tk]@; let lot = l1.last();
+    if t == tk {
+        assert(l1 =~= l0.push(lot)); rsum_push(l0, lot, f_avail_on(d));
+        if !led0.contains_key(tk) { rsum_empty::<AcquisitionLot>(f_avail_on(d)); }
+        assert(lot.date.d() == d);
+    } else {
+        if led0.contains_key(t) { assert(led1[t] == led0[t]); } else { assert(!led1.contains_key(t)); }
+    }
+}
+pub proof fn lemma_claims_nonneg(fc: Map<usize, Decimal>, txs: Seq<GbpTransaction>, x: int, t: Seq<char>)
+    requires txs.len() <= usize::MAX, fc_capped(fc, txs)
+    ensures claims_on(fc, txs, x, t) >= 0real
+{
+    assert forall|k: int| 0 <= k < txs.len() implies #[trigger] f_claim_on(fc, txs, x, t)(k) >= 0real by { if is_buy_on(txs, k, x, t) { assert(fc_get(fc, k as usize) >= 0real); } }
+    isum_nonneg(txs.len() as int, f_claim_on(fc, txs, x, t));
+}
+
+
+/// one instance of sortedness (for functions that hide the two-index quantifier)
+pub proof fn lemma_sorted(txs: Seq<GbpTransaction>, a: int, b: int)
+    requires sorted_by_date(txs), 0 <= a <= b < txs.len()
+    ensures txs[a].date.d() <= txs[b].date.d()
+{}
+
 } // verus!
